@@ -36,12 +36,12 @@ type CaseEmb struct {
 // embedded struct; indexed, unindexed and unique variants.
 type CaseRec struct {
 	sod.Item
-	U  string `sod:"index,upper"`
-	L  string `sod:"lower"`
-	UU string `sod:"unique,upper"`
-	LL string `sod:"index,lower"`
-	LU string `sod:"lower,unique"` // transformer listed before unique in the tag
-	NS NamedStr `sod:"upper"` // a named string type carrying a constraint
+	U  string   `sod:"index,upper"`
+	L  string   `sod:"lower"`
+	UU string   `sod:"unique,upper"`
+	LL string   `sod:"index,lower"`
+	LU string   `sod:"lower,unique"` // transformer listed before unique in the tag
+	NS NamedStr `sod:"upper"`        // a named string type carrying a constraint
 	In *CaseIn
 	CaseEmb
 	Raw string `sod:"index"`
